@@ -63,6 +63,19 @@ def strip_lean_comments(src):
   return ''.join(out)
 
 
+def load_known_findings():
+  """known_findings.json plus per-property files known_findings.d/*.json (same schema)."""
+  out = []
+  paths = [os.path.join(VERIF, 'known_findings.json')]
+  d = os.path.join(VERIF, 'known_findings.d')
+  if os.path.isdir(d):
+    paths += sorted(os.path.join(d, f) for f in os.listdir(d) if f.endswith('.json'))
+  for p in paths:
+    if os.path.exists(p):
+      out += json.load(open(p)).get('findings', [])
+  return out
+
+
 class Check:
   """One run of one property's check."""
 
@@ -92,9 +105,9 @@ class Check:
     self.flags = {}
     self.lines = []                # VIOLATION / KNOWN-FINDING lines printed
     self.coverage_extra = {}
-    kf = json.load(open(os.path.join(VERIF, 'known_findings.json')))
-    self.known = [e for e in kf.get('findings', []) if e['property'] == pid and e.get('status') == 'known']
-    self.theorems = json.load(open(os.path.join(LEAN_DIR, 'theorems.json'))).get(pid, {})
+    self.known = [e for e in load_known_findings() if e['property'] == pid and e.get('status') == 'known']
+    tp = os.path.join(LEAN_DIR, 'theorems', pid + '.json')
+    self.theorems = json.load(open(tp)) if os.path.exists(tp) else {}
 
   # ---------------------------------------------------------------- stage 1
   def proof_stage(self):
